@@ -91,8 +91,27 @@ def canonical(prem, concl, tys, eqs):
     return vs, val, tuples, per_type
 
 
-def build_env(envdecl, U, tuples, per_type, types):
-    """concrete environment: every premise tuple (and every element) is new, the old tables are empty"""
+_REL_TYPES = {}
+
+
+def old_elems_of(old, envdecl):
+    """(type, id) of the elements occurring in old tuples; column types come from _REL_TYPES (set by the caller)"""
+    out = set()
+    for rel, rows in old.items():
+        tps = _REL_TYPES.get(rel)
+        if tps is None:
+            continue
+        for row in rows:
+            for t, x in zip(tps, row):
+                out.add((t, x))
+    return out
+
+
+def build_env(envdecl, U, tuples, per_type, types, old=None):
+    """concrete environment: every premise tuple (and every element) is new, the old tables are empty -- except the tuples
+    listed in `old` ({rel: rows}), which are old; an element is old iff it occurs in an old tuple (INV-age)"""
+    old = old or {}
+    old_elems = set()
     f = {}
     outs = {}
     for fd in envdecl["fields"]["fields"]:
@@ -107,15 +126,17 @@ def build_env(envdecl, U, tuples, per_type, types):
             order = [int(x) for x in m.group("order").split("_") if x != ""]
             ix = M.Index(name, rel, m.group("age"), eqs, order, None)
             cells = {}
-            if m.group("age") == "new":
-                if rel in types:
-                    rows = [(i,) for i in range(per_type.get(rel, 0))]
-                else:
-                    rows = tuples.get(rel, set())
-                for row in rows:
-                    pr = ix.project(row)
-                    if pr is not None:
-                        cells[pr] = T
+            if rel in types:
+                rows_all = [(i,) for i in range(per_type.get(rel, 0))]
+                rows_old = [r_ for r_ in rows_all if (rel, r_[0]) in old_elems_of(old, envdecl)]
+            else:
+                rows_all = tuples.get(rel, set())
+                rows_old = old.get(rel, set())
+            rows = [r_ for r_ in rows_all if (r_ in rows_old) == (m.group("age") == "old")]
+            for row in rows:
+                pr = ix.project(row)
+                if pr is not None:
+                    cells[pr] = T
             f[name] = SetV(len(order), cells, U, frozen=True)
         elif name.startswith("new_"):
             f[name] = VecL()
@@ -525,6 +546,8 @@ def sound_program(task):
         mods = {m[0]: m for m in C16.rule_modules(files)}
         enum_types = set(L.enum_types(su, sch))
         types_of_rel = {r.name: r.types for r in sch.rels.values()}
+        _REL_TYPES.clear()
+        _REL_TYPES.update(types_of_rel)
         for rname, paths in su.rules:
             if rname.startswith("functionality_"):
                 continue
@@ -544,14 +567,19 @@ def sound_program(task):
                 res["stages"] += 1
                 U = max([1] + list(per_type.values()))
                 seen = set()
-                for mask in range(1 << len(flat)):
-                    sub = {}
+                # every tuple of the canonical database is absent, new or old (3^n databases; all-new only beyond 6 tuples)
+                ages_on = len(flat) <= 6
+                for combo in itertools.product((0, 1, 2) if ages_on else (0, 1), repeat=len(flat)):
+                    sub, sub_old = {}, {}
                     for i, (r_, row) in enumerate(flat):
-                        if mask >> i & 1:
+                        if combo[i]:
                             sub.setdefault(r_, set()).add(row)
+                        if combo[i] == 2:
+                            sub_old.setdefault(r_, set()).add(row)
+                    mask = combo
                     ctx = V.set_ctx(V.Ctx(Circuit(), U=U))
                     I = Interp(su.prog, ctx, loop_bound=U + 1)
-                    env, outs = build_env(envdecl, U, sub, per_type, set(sch.types))
+                    env, outs = build_env(envdecl, U, sub, per_type, set(sch.types), old=sub_old)
                     I.call_fn(entry, T, [env])
                     res["databases"] += 1
                     for field, lst in outs.items():
@@ -581,11 +609,18 @@ def sound_program(task):
                                 script = []
                                 for t in sch.types:
                                     script += ["new_" + t] * per_type.get(t, 0)
-                                for r_, rows in sorted(sub.items()):
+                                # the old tuples first, made old by a close(); then the new ones
+                                for r_, rows in sorted(sub_old.items()):
                                     for row in sorted(rows):
                                         script.append("insert_%s %s" % (r_, " ".join(map(str, row))))
+                                if sub_old:
+                                    script.append("close")
+                                for r_, rows in sorted(sub.items()):
+                                    for row in sorted(rows):
+                                        if row not in sub_old.get(r_, ()):
+                                            script.append("insert_%s %s" % (r_, " ".join(map(str, row))))
                                 res["violations"].append({"rule": rname, "stage": k, "kind": kind, "rel": rel, "tuple": list(tup), "database": {r_: sorted(map(list, rows)) for r_, rows in sub.items()},
-                                                          "elements": dict(per_type), "script": script})
+                                                          "old": {r_: sorted(map(list, rows)) for r_, rows in sub_old.items()}, "elements": dict(per_type), "script": script})
     except Unsupported as ex:
         res["status"] = "inconclusive"
         res["reason"] = "Unsupported: %s" % ex
@@ -622,7 +657,8 @@ def replay_sound(harness, name, su, sch, v, terminates=True):
     if forced:
         return False, "the pushed fact is forced by other rules of the program on this database", None
     try:
-        rc, out, err = harness.run(name, v["script"] + ["close" if terminates else "close_until 4", query], timeout=120)
+        script = [("close_until 4" if (l == "close" and not terminates) else l) for l in v["script"]]
+        rc, out, err = harness.run(name, script + ["close" if terminates else "close_until 4", query], timeout=120)
     except Exception as ex:
         return False, "native run failed: %r" % ex, None
     if rc != 0:
